@@ -728,7 +728,8 @@ def run_helpers(sub, ops):
 def check_helpers(rep, rng, n):
     for _ in range(n):
         size = rng.choice([0, 1, 5, 300, B - 1, B, B + 1, 2 * B + 5])
-        data = pattern(size, rng.randrange(256))
+        salt = rng.randrange(256)
+        data = pattern(size, salt)
         ops = helper_script(rng, size)
         ref = run_helpers(data, ops)
         rep.case('helpers %d %s' % (size, ops), nontrivial=True)
@@ -752,7 +753,7 @@ def check_helpers(rep, rng, n):
                          '%d octets as %s: %s -> %s, as bytes -> %s' % (
                              size, name, ops[i] if i < len(ops) else ops, str(got[i] if i < len(got) else got)[:80],
                              str(ref[i] if i < len(ref) else ref)[:80]),
-                         {'kind': 'helpers', 'size': size, 'ops': [list(o) for o in ops], 'substrate': name})
+                         {'kind': 'helpers', 'size': size, 'salt': salt, 'ops': [list(o) for o in ops], 'substrate': name})
 
 
 def check_unsupported(rep):
@@ -849,14 +850,28 @@ def replay(path):
             print('model wrapper == real wrapper:', mw == [fmt_out(x) for x in w],
                   ' model reference == real BytesIO:', mr == [fmt_out(x) for x in ref])
         elif r.get('kind') == 'decode' and r.get('bytes'):
-            t = sexp_types.ty_of_sexp(gen.parse_sexps(r['type'])[0])
+            t = sexp_types.ty_of_sexp(gen.parse_sexps(r['type'])[0]) if r.get('type') else None
+            spec = gen.build(t) if t is not None else None
             data = bytes.fromhex(r['bytes'])
             rng = common.rng_for(0, 'replay')
             dec = codec.DEC[r['codec']]
-            print('bytes      ->', short(one_shot(dec, data, gen.build(t), t)))
+            print('bytes      ->', short(one_shot(dec, data, spec, t)))
             for name, mk in substrates(data, rng):
                 sub, close = mk()
-                print('%-24s ->' % name, short(one_shot(dec, sub, gen.build(t), t)))
+                print('%-24s ->' % name, short(one_shot(dec, sub, spec, t)))
                 close()
+            print('%-24s ->' % 'nonseekable-trickle', short(trickle(dec, data, spec, t, rng)))
+            print('S4 signature (drop inside a definite-length container, drops, complete):', s4_region(data))
+        elif r.get('kind') == 'helpers':
+            data = pattern(r['size'], r.get('salt', 0))
+            ops = [tuple(o) for o in r['ops']]
+            print('bytes ->', run_helpers(data, ops))
+            for name, mk in substrates(data, common.rng_for(0, 'replay')):
+                if name == r.get('substrate'):
+                    sub, close = mk()
+                    print(name, '->', run_helpers(sub, ops))
+                    close()
+        else:
+            print('(no re-execution for this kind of replay: the recorded trace above is complete)')
     drv.close()
     return 0
